@@ -40,4 +40,13 @@ def target_algebra():
 
 
 def targets():
-    return [target_algebra()] + DF.c08_targets()
+    from . import purity, c12
+    pure = purity.target([
+        ("analysis/utility", ["_calculate_residuals", "_boukamp_weight", "_calculate_pseudo_chisqr"], ()),
+        ("analysis/zhit/offset", ["_adjust_offset", "_adjust_modulus_offset", "_calculate_modulus_offset"], ()),
+        ("analysis/zhit/reconstruction", ["_reconstruct", "_reconstruct_modulus_data"], ()),
+        ("analysis/zhit/weights", ["_generate_weights", "_generate_window_options"], ()),
+    ], title="callees assumed pure by the data-flow contracts write no module-level state")
+    # the circuit passed to fit_circuit is only read through deepcopy, once per method/weight combination (inputs are not modified,
+    # and results of different combinations do not share a circuit)
+    return [target_algebra()] + DF.c08_targets() + [pure, c12.target_fit_process_frame()]
